@@ -6,6 +6,7 @@ import (
 	"fmt"
 
 	"github.com/goghcrow/yae/types"
+	"github.com/goghcrow/yae/val"
 
 	"verif/model"
 )
@@ -18,6 +19,7 @@ type TyCtx struct {
 	back   map[string]string
 	Share  bool // identical (same written order) sub-terms become one *types.Type
 	shared map[string]*types.Type
+	share  map[string]*val.Val // value hash-consing (ToYaeValShared)
 }
 
 func NewTyCtx() *TyCtx {
